@@ -35,6 +35,18 @@ STACKS = ["client", "pooled", "hash", "hashpooled", "retrying"]
 D, CD = "<d>", "<cd>"
 
 
+class FalsySerde(dict):
+    """a codec registry that happens to be empty: a perfectly good serde object, but falsy"""
+
+    def serialize(self, key, value):
+        if isinstance(value, bytes):
+            return b"F:" + value, 31
+        return ("F:%s" % (value,)), 32
+
+    def deserialize(self, key, value, flags):
+        return value[2:] if flags in (31, 32) else value
+
+
 class UpperSerde:
     def serialize(self, key, value):
         if isinstance(value, bytes):
@@ -71,6 +83,7 @@ def base_configs():
         ("pickle0", {"serde": serde.PickleSerde(pickle_version=0)}),
         ("compressed", {"serde": serde.CompressedSerde(min_compress_len=5)}),
         ("custom-serde", {"serde": UpperSerde()}),
+        ("falsy-serde", {"serde": FalsySerde()}),
         ("legacy-funcs", {"serializer": legacy_ser, "deserializer": legacy_deser}),
         ("timeouts", {"connect_timeout": 1.5, "timeout": 2.5}),
         ("io-timeout-only", {"timeout": 2.5}),
